@@ -535,6 +535,89 @@ impl C09 {
         col.set_insert("exhaustive", "constructor code area: default mask + 8 masks x 22 paths");
     }
 
+    /// Two adjacent areas with different masks; a store that starts in the first and ends in the second.
+    /// Whatever the masks, the store cannot be granted as a whole (the second area denies it, or - as the
+    /// emulator documents - no access spans two areas), and a store that fails must change no byte of either area.
+    fn straddle(&self, k: u64, rng: &mut Rng, col: &mut Collector) {
+        let p = palette(CODE_AT);
+        let Some(mut ax) = fresh(&p) else { return };
+        let b_at = T_AT + T_LEN as u64;
+        let (ma, mb) = (*rng.pick(&[3u32, 3, 7, 2]), *rng.pick(&[0u32, 1, 1, 5, 4]));
+        if !call(|| {
+            ax.mem_init_area(b_at, vec![0x5a; 0x100])?;
+            ax.mem_prot(T_AT, ma)?;
+            ax.mem_prot(b_at, mb)
+        })
+        .is_ok()
+        {
+            return;
+        }
+        for _ in 0..24 {
+            let (name, size): (&str, u64) = *rng.pick(&[("api16", 2u64), ("api32", 4), ("api64", 8), ("api128", 16), ("apibytes", 8), ("mov64", 8), ("movups", 16), ("push", 8), ("call", 8)]);
+            let kbytes = rng.range(1, size - 1); // bytes that still lie in the first area
+            let addr = b_at - kbytes;
+            let val = mix64(k ^ addr ^ size);
+            let before: Vec<ax_x86::verif::AreaView> = ax.verif_areas().into_iter().filter(|a| a.start == T_AT || a.start == b_at).collect();
+            let guest = |ax: &mut Axecutor, rip: u64, rdi: u64, rsp: u64| -> Call<()> {
+                let s = call(|| {
+                    ax.reg_write_64(SR::RIP, rip)?;
+                    ax.reg_write_64(SR::RDI, rdi)?;
+                    ax.reg_write_64(SR::RSP, rsp)?;
+                    ax.reg_write_64(SR::RAX, val)?;
+                    ax.reg_write_128(SR::XMM0, (val as u128) << 64 | !val as u128)
+                });
+                if !s.is_ok() {
+                    return s;
+                }
+                match call(|| block_on(ax.step())) {
+                    Call::Ok(_) => Call::Ok(()),
+                    Call::Err { msg, rej } => Call::Err { msg, rej },
+                    Call::Panic(p) => Call::Panic(p),
+                }
+            };
+            col.publish("straddle", &format!("{} at {:#x} masks {}/{}", name, addr, ma, mb));
+            let r = match name {
+                "api16" => call(|| ax.mem_write_16(addr, val & 0xffff)),
+                "api32" => call(|| ax.mem_write_32(addr, val & 0xffff_ffff)),
+                "api64" => call(|| ax.mem_write_64(addr, val)),
+                "api128" => call(|| ax.mem_write_128(addr, (val as u128) << 64 | !val as u128)),
+                "apibytes" => call(|| ax.mem_write_bytes(addr, &val.to_le_bytes())),
+                "mov64" => guest(&mut ax, p.store, addr, 0),
+                "movups" => guest(&mut ax, p.xstore, addr, 0),
+                // with the emulator's slot convention the store goes to [RSP] (architecturally [RSP-8]): both placements straddle for some k
+                "push" => guest(&mut ax, p.push, 0, if rng.below(2) == 0 { addr } else { addr + 8 }),
+                _ => guest(&mut ax, p.call, 0, if rng.below(2) == 0 { addr } else { addr + 8 }),
+            };
+            col.eval(1);
+            col.distinct_key(&format!("straddle|{}|{}|{}|{}", name, kbytes, ma, mb));
+            let after: Vec<ax_x86::verif::AreaView> = ax.verif_areas().into_iter().filter(|a| a.start == T_AT || a.start == b_at).collect();
+            if r.is_panic() {
+                col.violation_case(&format!("straddle:panic:{}", r.panic_key()), k, r.describe(), json!({"op": name, "address": format!("{:#x}", addr)}));
+                return;
+            }
+            if !r.is_ok() && before != after {
+                let which = before.iter().zip(after.iter()).find(|(a, b)| a != b).map(|(a, _)| a.start).unwrap_or(0);
+                col.violation_case(&format!("straddle:failed-store-changed-memory:{}", name), k, format!("{} of {} bytes at {:#x} ({} in the first area, masks {}/{}) failed but area {:#x} changed", name, size, addr, kbytes, ma, mb, which), json!({"op": name, "address": format!("{:#x}", addr), "masks": [ma, mb]}));
+                return;
+            }
+            if r.is_ok() && (mb & 2 == 0 || ma & 2 == 0) && name != "push" && name != "call" {
+                col.violation_case(&format!("straddle:store-into-non-writable-area-succeeded:{}", name), k, format!("{} of {} bytes at {:#x} succeeded although one of the two areas (masks {}/{}) is not writable", name, size, addr, ma, mb), json!({"op": name, "address": format!("{:#x}", addr), "masks": [ma, mb]}));
+                return;
+            }
+            // restore the contents for the next round (through mask 3, then back)
+            if before != after {
+                let _ = call(|| {
+                    ax.mem_prot(T_AT, 3)?;
+                    ax.mem_prot(b_at, 3)?;
+                    ax.mem_write_bytes(T_AT, &before[0].data)?;
+                    ax.mem_write_bytes(b_at, &before[1].data)?;
+                    ax.mem_prot(T_AT, ma)?;
+                    ax.mem_prot(b_at, mb)
+                });
+            }
+        }
+    }
+
     /// masks changed by mem_prot in the middle of a history of accesses
     fn history(&self, k: u64, rng: &mut Rng, col: &mut Collector) {
         let p = palette(CODE_AT);
@@ -655,6 +738,8 @@ impl Monitor for C09 {
             self.elf_case(k, rng, col, bytes, name);
         } else if k % 3 == 1 {
             self.form_sweep(k, rng, col);
+        } else if k % 30 == 2 {
+            self.straddle(k, rng, col);
         } else if k % 3 == 0 {
             let spec = elfgen::gen_spec(rng, false);
             let bytes = elfgen::write_elf(&spec);
